@@ -340,6 +340,34 @@ class MHistory:
                 self.dead.add(p)
                 ctx.violation(v.mechanism, v.message, v.witness,
                               case=dict(ops=d.ops[-40:], cycle=self.cycles, when=when))
+        st = getattr(d, 'stale_presence', None)
+        if st is not None and not startup:
+            # the cycle that follows a listing that was stale when the master processed it (C03: nothing is assigned to
+            # a server whose presence node was gone by then; C07 / C08: a server whose presence node existed by then is
+            # not treated as failed)
+            sname = st['server']
+            if d.state_event_step.get(sname, -1) >= st['step']:
+                placement_checked = []          # an operator's state event came after it: the record is the operator's
+            else:
+                placement_checked = placement
+            for name, before, _eb, after, _ea in placement_checked:
+                if st['kind'] == 'up-then-gone' and after == sname and before != sname and 'C03' in self.props and 'C03' not in self.dead:
+                    self.dead.add('C03')
+                    ctx.violation('assigned-to-server-without-presence:listing-stale-when-processed',
+                                  '%s assigned to %s, whose presence node was gone when the master processed the listing '
+                                  'that still named it' % (name, sname), case=dict(ops=d.ops[-40:], cycle=self.cycles))
+                if st['kind'] == 'gone-then-back' and before == sname and after != sname and name in d.H.apps and \
+                        not d.H.apps[name]['blacklisted']:
+                    recorded = (d.H.servers.get(sname) or {}).get('state')
+                    for p in ('C07', 'C08'):
+                        if p in self.props and p not in self.dead and recorded == 'down':
+                            self.dead.add(p)
+                            ctx.violation('lost-placement-on-server-with-presence:listing-stale-when-processed',
+                                          '%s left %s (-> %s): the server is recorded down although its presence node existed '
+                                          'when the master processed the listing that did not name it' % (name, sname, after),
+                                          case=dict(ops=d.ops[-40:], cycle=self.cycles))
+            ctx.count('cycles_after_stale_presence_listing')
+            d.stale_presence = None
         fl = oracles.nontrivial_flags(rec)
         fl['C09'] = self.moved > 0 or any(op[0] in ('server_delete', 'restart') for op in d.ops)
         for p in self.props:
